@@ -37,6 +37,12 @@ def gen_cases(ctx):
         cases.append(dict(c, id="GC-%d-big" % i, big=True))
         if i % 4 == 0:
             cases.append(dict(c, id="GC-%d" % i))
+    # negative member ids: legal file order (-1, -2, -3, 1, ...) is not the numeric order the members database is sorted by
+    r = vlib.tlc_ok(vlib.tlc("MCRelMgr", "GenRelMgr_Neg.cfg", workers=8, simulate=(120 if quick else 1500), depth=60, seed=ctx.seed,
+                             tag="relmgr_Neg"), "export Neg")
+    ctx.add_tlc(r, "export: simulated scenarios over negative and positive node/way ids in file order")
+    for i, c in enumerate(r.cases):
+        cases.append(dict(c, id="Neg-%d" % i))
     return cases
 
 
